@@ -28,6 +28,12 @@ type Enum struct {
 func (en *Enum) evalRange(lo, hi int, rep *reply) {
 	for i := lo; i < hi; i++ {
 		x := en.Eval(*flagTier, i)
+		if x.Infra != "" {
+			if len(rep.Infra) < 3 {
+				rep.Infra = append(rep.Infra, x.Infra)
+			}
+			continue
+		}
 		rep.Execs++
 		if x.Nontrivial {
 			rep.Nontrivial++
@@ -113,6 +119,12 @@ func EnumMain(en *Enum) {
 				}
 				rep.Executions += r.Execs
 				rep.Nontrivial += r.Nontrivial
+				if len(r.Infra) > 0 {
+					rep.Exhaustive = false
+					if len(rep.Notes) < 5 {
+						rep.Notes = append(rep.Notes, "infrastructure: "+r.Infra[0])
+					}
+				}
 				for k, v := range r.Obs {
 					obs[k] = v
 				}
